@@ -113,7 +113,8 @@ fn dispatch_inner(prop: &str, ctx: Ctx, replay: Option<&str>) -> i32 {
         }
         "C20" => {
             crate::run::start_watchdog(std::time::Duration::from_secs(120), Some("C20"));
-            let rep = c20::run_frame_level(ctx);
+            let mut rep = c20::run_frame_level(ctx);
+            rep.merge(c20::run_loopback(ctx));
             finish(rep, c20::meta(), ctx.tier, ctx.seed, started)
         }
         "C07" => {
